@@ -1193,7 +1193,7 @@ impl Recorder {
         let cfg = Cfg {
             layout: layout.into(), psug: phon && sug, fsug: !phon && sug, english: b(&mut self.rng), ansi: self.rng.below(5) == 0, smart: b(&mut self.rng),
             vowel: b(&mut self.rng), chandra: b(&mut self.rng), kar: b(&mut self.rng), reph: b(&mut self.rng), numpad: b(&mut self.rng),
-            karorder: self.rng.below(3) == 0, db: true,
+            karorder: self.rng.below(3) == 0, db: true, altdb: false,
         };
         let j = json!({"method": if phon { "phonetic" } else { "fixed" }, "layout": layout, "sug": sug, "numpad": cfg.numpad,
                        "o": {"vowel": cfg.vowel, "chandra": cfg.chandra, "kar": cfg.kar, "reph": cfg.reph, "karorder": cfg.karorder}});
